@@ -9,43 +9,35 @@ plus a stats json.
 """
 import json, subprocess, sys, os, re, time, shutil
 
-def run(spec_dir, cfg_text, out_cases, workdir, workers=8, timeout=3600, module="MC_AnyVec"):
+def run(spec_dir, cfg_text, out_cases, workdir, workers=1, timeout=3600, module="MC_AnyVec"):
     os.makedirs(workdir, exist_ok=True)
     for f in os.listdir(spec_dir):
         if f.endswith(".tla"):
             shutil.copy(os.path.join(spec_dir, f), workdir)
     with open(os.path.join(workdir, "MC.cfg"), "w") as f:
         f.write(cfg_text)
-    cmd = ["timeout", str(timeout), "tlc", "-workers", str(workers), "-metadir", os.path.join(workdir, "md"),
+    cmd = ["timeout", str(timeout), "tlc", "-workers", "1", "-metadir", os.path.join(workdir, "md"),
            "-cleanup", "-noGenerateSpecTE", "-coverage", "1", "-config", "MC.cfg", module + ".tla"]
     t0 = time.time()
     p = subprocess.Popen(cmd, cwd=workdir, stdout=subprocess.PIPE, stderr=subprocess.STDOUT, text=True, bufsize=1 << 20)
-    ids = {(): 0}
-    pending = []           # paths whose parent has not been seen yet (multi-worker interleaving)
     stats = {"states": 0, "distinct": 0, "transitions": 0, "errors": [], "coverage": {}}
     log = []
     n = 0
     out = open(out_cases, "w")
-    def key(path):
-        return tuple(json.dumps(a, sort_keys=True) for a in path)
-    def add(kpath, path):
-        nonlocal n
-        if kpath in ids:
-            return True
-        par = kpath[:-1]
-        if par not in ids:
-            return False
-        n += 1
-        ids[kpath] = n
-        out.write(json.dumps({"id": n, "parent": ids[par], "act": path[-1]}, sort_keys=True) + "\n")
-        return True
+    seen = {0}
+    orphans = 0
+    pat = re.compile(r'^<<(\d+), (\d+), "(.*)">>$')
     for line in p.stdout:
-        if line.startswith('"['):
-            path = json.loads(json.loads(line))
-            kp = key(path)
+        m = pat.match(line.rstrip("\n")) if line.startswith("<<") else None
+        if m:
+            par, nid = int(m.group(1)), int(m.group(2))
+            act = json.loads(json.loads('"' + m.group(3) + '"'))
             stats["transitions"] += 1
-            if not add(kp, path):
-                pending.append((kp, path))
+            if par not in seen:
+                orphans += 1
+            seen.add(nid)
+            n += 1
+            out.write(json.dumps({"id": nid, "parent": par, "act": act}, sort_keys=True) + "\n")
         else:
             log.append(line)
             m = re.search(r"(\d+) states generated, (\d+) distinct states found", line)
@@ -57,16 +49,10 @@ def run(spec_dir, cfg_text, out_cases, workdir, workers=8, timeout=3600, module=
             if m:
                 stats["coverage"][m.group(1)] = [int(m.group(4)), int(m.group(5))]
     rc = p.wait()
-    # resolve pending (sorted by length so parents come first)
-    pending.sort(key=lambda x: len(x[0]))
-    unresolved = 0
-    for kp, path in pending:
-        if not add(kp, path):
-            # parent path was never printed: emit the missing prefix nodes explicitly
-            for j in range(1, len(kp) + 1):
-                if kp[:j] not in ids:
-                    add(kp[:j], path[:j]); unresolved += 1
     out.close()
+    if orphans:
+        stats["errors"].append("%d transitions whose parent transition was not printed before them" % orphans)
+    unresolved = orphans
     stats["cases"] = n
     stats["rc"] = rc
     stats["unresolved_prefixes"] = unresolved
